@@ -25,6 +25,7 @@ var registry = map[string]entry{
 	"C08": {"exploration", props.C08},
 	"C09": {"exploration", props.C09},
 	"C10": {"fault_enumeration", props.C10},
+	"C11": {"exploration", props.C11},
 	"C12": {"exploration", props.C12},
 	"C13": {"exploration", props.C13},
 	"C14": {"exploration", props.C14},
